@@ -269,5 +269,7 @@ def run(ctx):
     ctx.cov["rule"] = keep["rule"] + (" | delivery paths: the C08 generators (poll / pipe / reobs / paths, hconf batches of several blocks handed over out of "
                                       "sequence order with foreign senders in between) - every forwarded message compared field by field with the event it was "
                                       "made from and with its own block's header (clauses forwarded-altered, poll-forwarded-altered, reobs-forwarded-altered, "
-                                      "shared with C04)")
+                                      "shared with C04); every pending event is made by the watcher's own toUnconfirmedEvent (fetch loop, handleUnconfirmedEvents "
+                                      "for handed-in batches, hconf), under isMainnet either way and the shipped configurations, and compared with the served "
+                                      "event's own fields (clause delivered-altered)")
     ctx.cov["generator_distribution"] = {"alphutil": keep["generator_distribution"], "alphwatch": ctx.cov.get("generator_distribution")}
